@@ -12,8 +12,8 @@ REG = dict(
         "the integrated average curve is related at every refinement level i; the stopping index is decided in floating "
         "point by the code",
         "oracle used to attribute a deviating integrated curve: adaptive Gauss-Legendre quadrature of the class's own cdf; the "
-        "Lean model of the documented loop (OpdaModel/QuadTrap.lean with the noisy cdf model) decides whether the deviation "
-        "is the documented algorithm's own (finding F4)",
+        "Lean model of the loop (OpdaModel/QuadTrap.lean with the noisy cdf model) says whether a deviation is the algorithm's own "
+        "(the pre-fix defect F4, repaired in /repo by 867c66b; it is no longer a listed finding, so its return would be reported)",
     ],
     assumptions=["a < b with b-a in [1e-6,1e6], |a|+|b| <= 1e3 (b-a); c in 1..10; s=o/(b-a) in {0} u [1e-9,1e3]",
                  "s within 1e-9 relative of an internal switch point (1e-6, 10, 5e-2, every min_scale of the shipped table, "
@@ -34,11 +34,11 @@ TEXT = dict(
           "D.sample(u,z) = a+(b-a) D0.sample(u,z) with o = s(b-a); reflection — the mirrored instance fed with the complementary "
           "uniform 1-u and the negated normal -z returns minus the draw; with the same uniform it does NOT (counterexample theorem), so "
           "for sample the reflection is an identity of laws, not of equal-seed draws (6 theorems). Integrated average curve (loop model Opda.TrapLoop = composite trapezoid sums, "
-          "every refinement level): mirror image WITH the 1[y>0] term; location-scale equivariant for the integrand without "
-          "it; for the code's integrand only when 0 is outside [a-6o,b+6o] (`_partial`; the complement is finding F4). "
+          "every refinement level, the REPAIRED integrand of fix 867c66b: E = lo + int(1-G)): mirror image (navg_reflect) and "
+          "location-scale equivariant (navg_affine) at every refinement level with no side condition. "
           "Correspondence: paired evaluations of the real code on mirrored / rescaled instances at exactly the property's "
           "tolerances, every regime and both sides of every switch point.",
-    note="Findings on the unchanged tree: F4 (integrated noisy average curve is not location-equivariant: premature "
-         "convergence when 0 lies inside the integration range) and C09-noisy-ppf-reflection-exact-bisection-tie (ppf/quantile curve: at an exact float tie "
+    note="F4 (integrated noisy average curve not location-equivariant: premature convergence when 0 lay inside the integration range) was found "
+         "here and is repaired in /repo (867c66b). Finding on the unchanged tree: C09-noisy-ppf-reflection-exact-bisection-tie (ppf/quantile curve: at an exact float tie "
          "cdf(mid)==q the `<` moves `hi` in both mirrored instances; results differ by 2^-30 of the bracket, > 1e-12).",
 )
